@@ -14,7 +14,8 @@ PROPS = {
                  "duration with >=2 non-zero units / every float, instant, period. Distinct by value."),
         "assumptions": ["exact rational arithmetic (math/big) is the oracle for scaled numbers",
                         "durations above 3276 days are outside the period type's exact range and not generated",
-                        "time-period checks allow 1.2 s (1 s stated + scheduling slack)"],
+                        "time-period checks allow 1.2 s (1 s stated + scheduling slack)",
+                        "every legal xs:duration spelling of a whole number of seconds is a textual form of that duration (text to duration only)"],
         "runs": [
             {"name": "decimal", "run": "TestScaledDecimal", "kind": "rapid", "checks": {Q: 400000, T: 64000000}, "shards": {Q: 4, T: 16}, "env": {"VERIF_HASH_MOD": {Q: 1, T: 64}}},
             {"name": "float", "run": "TestScaledFloat", "kind": "rapid", "checks": {Q: 200000, T: 48000000}, "shards": {Q: 2, T: 16}, "env": {"VERIF_HASH_MOD": {Q: 1, T: 64}}},
@@ -453,4 +454,24 @@ _RULE_ADDENDA_6 = {
     "C20": " Scenario lists are given in the drawn order or with a scenario named twice in half of the additions.",
 }
 for _k, _v in _RULE_ADDENDA_6.items():
+    PROPS[_k]["rule"] += _v
+
+# ... and after the seventh round
+_RULE_ADDENDA_7 = {
+    "C01": " A sixth of the requests carry the optional addressOriginator.",
+    "C02": " Partial updates may mix items with and without identifiers: only the invariants (one item per identifier, order) are judged for them.",
+    "C03": " A fifth of the write datagrams carry a second command for the read-only function: its data stays.",
+    "C05": " In an eighth of the cases the connections have carried 100 notifications before the messages arrive.",
+    "C06": " A new entity may be listed twice in one reply / complete notification.",
+    "C07": " addFunction sometimes adds a function of another feature type; application entities may be of the type DeviceInformation.",
+    "C10": " The application may remove its local entity [2] or [1,1]; entries peers hold on its server features are torn down - one event each - with the peer.",
+    "C11": " Origin local-append-set: the application appends to the list of the copy it obtained and hands it back with SetData.",
+    "C14": " Client features also send real read requests and register callbacks for the returned counters; the answering peer is drawn independently of the asked one; a peer nobody waits for may disconnect and reconnect while callbacks are pending.",
+    "C16": " AddFunctionType(heartbeat) for a feature that has the function already occurs anywhere in the histories: nothing starts or stops.",
+    "C17": " Workloads: restricted notifies / replies that cannot be applied, announcements, DestinationData / DeviceType / FeatureSet readers; storm announcements-vs-device-readers.",
+    "C18": " In half of the filter-carrying cells further commands with other filters are built from the same function object before the command under test is encoded.",
+    "C19": " Durations are also read from their other legal spellings (PTnS, PTmMsS, PTmM, PThH); periods reach the encoder through a pointer, by value, as struct member or map value.",
+    "C20": " One of the use case names differs from another in capitalisation only.",
+}
+for _k, _v in _RULE_ADDENDA_7.items():
     PROPS[_k]["rule"] += _v
